@@ -4,7 +4,7 @@ import random
 
 from harness import lib_graph as G
 
-PROFILES = ["mixed", "o2m", "tree", "m2m", "cycle", "inherit", "oneway", "oneway", "graph", "graph", "unit", "unit", "peer", "peer", "owner", "owner", "composite", "composite"]
+PROFILES = ["mixed", "o2m", "tree", "m2m", "cycle", "inherit", "oneway", "oneway", "graph", "graph", "unit", "unit", "peer", "peer", "owner", "owner", "composite", "composite", "chain", "chain"]
 
 
 def first_failure(res):
@@ -31,11 +31,12 @@ def first_failure(res):
 
 
 def _worker(job):
-    seedstr, n, sizes, capture = job
+    seedstr, n, sizes, capture = job[:4]
+    profiles = job[4] if len(job) > 4 and job[4] else PROFILES
     rng = random.Random(seedstr)
     out = []
     for _ in range(n):
-        prof = rng.choice(PROFILES)
+        prof = rng.choice(profiles)
         rounds = G.gen_rounds(rng, rng.randint(1, sizes[0]), rng.randint(2, sizes[1]), prof)
         res = G.run_case(rounds, capture=capture)
         deps = [d for r in res for d in r.get("deps", [])] if capture else []
@@ -45,8 +46,8 @@ def _worker(job):
     return out
 
 
-def run_random(pid, seed, tag, nchunks, per, sizes, capture=False, procs=6):
-    jobs = [("%s:%d:%d:%s" % (pid, seed, c, tag), per, sizes, capture) for c in range(nchunks)]
+def run_random(pid, seed, tag, nchunks, per, sizes, capture=False, procs=6, profiles=None):
+    jobs = [("%s:%d:%d:%s" % (pid, seed, c, tag), per, sizes, capture, profiles) for c in range(nchunks)]
     if procs <= 1:
         res = [_worker(j) for j in jobs]
     else:
@@ -56,6 +57,12 @@ def run_random(pid, seed, tag, nchunks, per, sizes, capture=False, procs=6):
     return [c for chunk in res for c in chunk]
 
 
-def replay_case(rounds):
-    res = G.run_case(rounds)
-    return res, first_failure(res)
+def replay_case(rounds, attempts=1):
+    """attempts > 1: the unit of work iterates sets of instance states (hashed by address), so a
+    failure that depends on that order shows only in some executions of the same history"""
+    for _ in range(max(1, attempts)):
+        res = G.run_case(rounds)
+        f = first_failure(res)
+        if f is not None:
+            break
+    return res, f
